@@ -102,6 +102,8 @@ def build(pid, variant="main"):
     os.makedirs(OBJ, exist_ok=True)
     hd = headers_digest()
     flags = list(BASE_CXX)
+    if v.get("sanitizer", cfg.get("sanitizer")) == "none":
+        flags = [f for f in flags if f != "-fsanitize=address"]
     if v.get("sanitizer") == "thread":
         flags = [f for f in flags if f != "-fsanitize=address"] + ["-fsanitize=thread"]
     flags += v.get("cxxflags", cfg.get("cxxflags", []))
